@@ -59,6 +59,7 @@ func q(s string) string {
 // ---------------------------------------------------------------------------------------------
 
 type Obligation struct {
+	Retried   bool // undecided in the parallel pass, decided (or not) again in the low-parallelism second pass
 	Name      string
 	Kind      string // post, inv-entry, inv-preserve, dec, pre, safe, frame, panic, dispatch, lemma, vacuity
 	Fn        string
@@ -732,7 +733,7 @@ type Finding struct {
 // assertCompWF: every value stored in a heap component is well typed and refers only to allocated
 // objects (a global invariant of Go memory; the obligations on stores and arithmetic keep it).
 func (vc *VC) assertCompWF(term, name, alloc string) {
-	if name == bufArrComp || name == poolBufsComp || name == poolArraysComp {
+	if name == bufArrComp || name == poolBufsComp || name == poolArraysComp || name == poolHeldComp {
 		return // the pool invariant is asserted for the three components together (poolWF)
 	}
 	vt := vc.compTypes[name]
